@@ -249,6 +249,33 @@ Tiny(k) ==
     [] k = "RAW" -> { RawOf(199, 3, Ramp(4, 50)) }
 TinyAll == UNION { Tiny(k) : k \in AllKinds }
 
+\* ---- receiver reuse: per kind, values whose lists differ in length and whose optional parts are
+\* present in one and absent in the other (a decoder that appends to, or keeps, what the receiver held
+\* shows on the ordered pairs of these) ------------------------------------------
+ReuseDom(k) ==
+  CASE k = "SR" -> { [BaseSR EXCEPT !.reports = RBs(n)] : n \in {0, 1, 2} } \cup { [BaseSR EXCEPT !.ext = Ramp(4, 3), !.ssrc = D4(77)] }
+    [] k = "RR" -> { [BaseRR EXCEPT !.reports = RBs(n)] : n \in {0, 1, 2} } \cup { [BaseRR EXCEPT !.ext = Ramp(4, 3), !.ssrc = D4(77)] }
+    [] k = "SDES" -> Tiny("SDES") \cup { [k |-> "SDES", chunks |-> << Chunk1(1, << Item(2, 1) >>), Chunk1(2, << Item(1, 3), Item(3, 2) >>) >>] }
+    [] k = "BYE" -> Tiny("BYE") \cup { [k |-> "BYE", srcs |-> << >>, reason |-> << >>], [k |-> "BYE", srcs |-> << D4(1), D4(9) >>, reason |-> Ramp(5, 70)] }
+    [] k = "APP" -> Tiny("APP") \cup { [BaseAPP EXCEPT !.data = Ramp(8, 40), !.ssrc = D4(77)] }
+    [] k = "NACK" -> { [BaseNACK EXCEPT !.nacks = [i \in 1..n |-> Pair(i, 65535 - i)]] : n \in {1, 2, 3} }
+    [] k = "RRR" -> { Fb("RRR"), [Fb("RRR") EXCEPT !.sender = D4(77), !.media = D4(99)] }
+    [] k = "PLI" -> { Fb("PLI"), [Fb("PLI") EXCEPT !.sender = D4(77), !.media = D4(99)] }
+    [] k = "SLI" -> { [BaseSLI EXCEPT !.sli = [i \in 1..n |-> Sli(i, 8191 - i, i % 64)]] : n \in {1, 2, 3} }
+    [] k = "FIR" -> { [BaseFIR EXCEPT !.fir = [i \in 1..n |-> Fir(<< i, 3, 2, i >>, i)]] : n \in {1, 2, 3} }
+    [] k = "REMB" -> { [BaseREMB EXCEPT !.ssrcs = [i \in 1..n |-> << i, 5, 6, i >>]] : n \in {0, 1, 2, 3} }
+                     \cup { [BaseREMB EXCEPT !.br = [s |-> 0, e |-> 150, f |-> 64]] }
+    [] k = "CCFB" -> { [BaseCCFB EXCEPT !.blocks = [i \in 1..n |-> CcBlock(<< i, 7, 7, i >>, i, [j \in 1..i |-> Mb(TRUE, 0, j)])]] : n \in 0..3 }
+    [] k = "TWCC" -> { MkTWCC(0, << >>, << >>, FALSE),
+                       MkTWCC(1, << Rl(1, 1) >>, << Dl(1, 7) >>, FALSE),
+                       MkTWCC(3, << Sv2(<< 1, 2, 0 >>) >>, << Dl(1, 1), Dl(2, 513) >>, FALSE),
+                       MkTWCC(9, << Sv2(<< 1, 2, 3, 0, 1, 2, 3 >>), Rl(1, 2) >>, << Dl(1, 1), Dl(2, 2), Dl(1, 3), Dl(2, 4), Dl(1, 5), Dl(1, 6) >>, FALSE) }
+    [] k = "XR" -> Tiny("XR") \cup { MkXR(<< >>), MkXR(<< XrB("rrt"), XrB("dlrr"), XrB("voip") >>),
+                                     MkXR(<< [XrB("dlrr") EXCEPT !.reports = [i \in 1..3 |-> [ssrc |-> << i, 2, 2, i >>, lrr |-> D4(i), dlrr |-> D4(100 + i)]]] >>),
+                                     MkXR(<< [XrB("lrle") EXCEPT !.chunks = [i \in 1..4 |-> 40000 + i]] >>),
+                                     MkXR(<< [XrB("prt") EXCEPT !.times = [i \in 1..3 |-> << i, 1, 1, i >>]] >>) }
+    [] k = "RAW" -> { RawOf(199, 3, Ramp(4, 50)), RawOf(199, 0, << >>), RawOf(208, 31, Ramp(8, 50)) }
+
 \* ---- values at, just below and just above every wire limit (C08) ------------
 LostVals == { << 0, 255, 255, 255 >>, << 1, 0, 0, 0 >>, << 1, 0, 0, 1 >>, << 1, 255, 255, 255 >>, << 2, 0, 0, 0 >>, << 255, 255, 255, 255 >> }
 TextLens == {254, 255, 256, 300}
